@@ -29,9 +29,12 @@ import (
 )
 
 // Step behaviours. Each is a deterministic function of its request.
-var behaviours = []string{"base", "keep", "addx", "dropa", "rename", "error", "fatal", "warn", "normal", "req0", "req1", "req4", "req5", "reqalt"}
+// The reqalt-* behaviours never stabilise: their requirements alternate in
+// exactly one dimension of the selector (one per field a comparison could
+// forget).
+var behaviours = []string{"base", "keep", "addx", "dropa", "rename", "error", "fatal", "warn", "normal", "req0", "req1", "req4", "req5", "reqalt", "reqalt-labelvalue", "reqalt-labelkey", "reqalt-kind", "reqalt-apiversion", "reqalt-key"}
 
-var quickBehaviours = []string{"base", "keep", "addx", "dropa", "rename", "error", "fatal", "warn", "req1", "req4", "req5", "reqalt"}
+var quickBehaviours = []string{"base", "keep", "addx", "dropa", "rename", "error", "fatal", "warn", "req1", "req4", "req5", "reqalt", "reqalt-labelvalue", "reqalt-labelkey", "reqalt-kind", "reqalt-apiversion", "reqalt-key"}
 
 // Observed states (prepared by real reconciles, then perturbed).
 var observedStates = []string{"none", "a", "ab", "a-deleted", "a-terminating", "a-foreign", "a-uncontrolled"}
@@ -124,6 +127,26 @@ func runner(calls *[]string) xrh.FunctionRunner {
 			round := ctxCounter(req, key)
 			rsp.Requirements = requirement(fmt.Sprintf("cm-%d", round%2))
 			rsp.Context = withCounter(req, key, round+1)
+		case "reqalt-labelvalue", "reqalt-labelkey", "reqalt-kind", "reqalt-apiversion", "reqalt-key":
+			key := "round-" + name
+			round := ctxCounter(req, key)
+			v := fmt.Sprint(round % 2)
+			sel := &fnv1.ResourceSelector{ApiVersion: "v1", Kind: "ConfigMap", Match: &fnv1.ResourceSelector_MatchLabels{MatchLabels: &fnv1.MatchLabels{Labels: map[string]string{"k": "v"}}}}
+			rk := "extra"
+			switch b {
+			case "reqalt-labelvalue":
+				sel.Match = &fnv1.ResourceSelector_MatchLabels{MatchLabels: &fnv1.MatchLabels{Labels: map[string]string{"k": "v" + v}}}
+			case "reqalt-labelkey":
+				sel.Match = &fnv1.ResourceSelector_MatchLabels{MatchLabels: &fnv1.MatchLabels{Labels: map[string]string{"k" + v: "v"}}}
+			case "reqalt-kind":
+				sel.Kind = "Kind" + v
+			case "reqalt-apiversion":
+				sel.ApiVersion = "example.org/v" + v
+			case "reqalt-key":
+				rk = "extra" + v
+			}
+			rsp.Requirements = &fnv1.Requirements{ExtraResources: map[string]*fnv1.ResourceSelector{rk: sel}}
+			rsp.Context = withCounter(req, key, round+1)
 		default:
 			panic("unknown behaviour " + b)
 		}
@@ -149,6 +172,9 @@ func reference(steps []string) (final map[string]bool, fails bool) {
 				d["c"] = true
 			}
 		case "error", "fatal", "req5", "reqalt":
+			return nil, true
+		}
+		if strings.HasPrefix(b, "reqalt-") {
 			return nil, true
 		}
 	}
@@ -407,6 +433,9 @@ func failKind(steps []string) string {
 	for _, b := range steps {
 		switch b {
 		case "error", "fatal", "req5", "reqalt":
+			return b
+		}
+		if strings.HasPrefix(b, "reqalt-") {
 			return b
 		}
 	}
